@@ -59,6 +59,12 @@ def gen(seed, tier):
         cases.append({"op": "c13", "table": [[[1, 1]]], "problems": [{"kind": "so", "min": True}], "par": par, "calls": [[0, [0]], [0, [0]], [0, []]]})
         cases.append({"op": "c13", "table": [[[1, 1], [2, 1]], [[3, 1], [-1, 2]]], "problems": [{"kind": "mo", "min": [True, False], "agg": None}, {"kind": "mo", "min": True, "agg": None}],
                       "par": par, "calls": [[0, [0, 1, 0]], [1, [1, 1]], [0, [1, 0]], [1, [0]]]})
+    # worker timing: distinct fitness values, the first individuals of the batch finish LAST (and other orders)
+    for delays in ([0.45, 0.3, 0.15, 0.0], [0.0, 0.3, 0.1, 0.2], [0.3, 0.0, 0.3, 0.0]):
+        for spec in ({"kind": "so", "min": False}, {"kind": "mo", "min": [True, False], "agg": None}):
+            nobj = 1 if spec["kind"] == "so" else 2
+            cases.append({"op": "c13", "table": [[[10 * (i + 1) + j, 1] for j in range(nobj)] for i in range(4)], "problems": [spec], "par": True,
+                          "calls": [[0, [0, 1, 2, 3]]], "delays": delays})
     return cases
 
 
